@@ -313,6 +313,32 @@ def check_node(g, s, history, weighted, unit, select=True):
     return problems, cnt
 
 
+def shrink(g, prob):
+    """Greedy minimisation of a failing history: drop calls while the history stays a
+    path of the emitted graph and the same failure class is observed at its end."""
+    weighted, unit = prob["weighted"], prob["unit"]
+    hist = [tuple(c) for c in prob["history"]]
+    best = prob
+    s0 = tuple([-1] * g.n)
+    progress = True
+    while progress:
+        progress = False
+        for i in range(len(hist)):
+            h2 = hist[:i] + hist[i + 1:]
+            s = s0
+            try:
+                for c in h2:
+                    s = g.succ(s, ref_op(c, weighted))
+            except KeyError:
+                continue
+            ps, _ = check_node(g, s, h2, weighted, unit)
+            same = [q for q in ps if q["key"] == prob["key"]]
+            if same:
+                hist, best, progress = h2, same[0], True
+                break
+    return best
+
+
 # ----------------------------------------------------------------------------
 # all histories: walk of the emitted graph
 # ----------------------------------------------------------------------------
